@@ -63,6 +63,29 @@ def out_dest(call, ai):
     return None
 
 
+def success_records_line(prog, ctx, rule):
+    """whenever store() reports success the entry it worked on carries the number of the line just handled: the extended getter
+    reports it, and read_file() recognises the NEXT line as a continuation by `entry.line_number + 1 == line` (C15: python style)"""
+    st = prog.fn(parser.STORE)
+    scfg = st.cfg
+    lsb = set(scfg.block_of(s) for lhs, rhs, s, kind in query.stores(st) if render(lhs).endswith(".line_number") and rhs is not None and render(rhs) == "line_number")
+    if not lsb:
+        return
+    if scfg.entry in lsb:
+        ctx.ok(rule, "store() succeeds only after recording the line number", st.where, "recorded in the first block")
+        return
+    wp = scfg.success_path_avoiding(lambda lit, b, i: scfg.blocks[b].succs[i] in lsb)
+    if wp is None:
+        ctx.ok(rule, "store() succeeds only after recording the line number", st.where,
+               "every consistent path to `return ECONF_SUCCESS` passes `entry.line_number = line_number`")
+    else:
+        last = wp[-1][0] if wp else scfg.entry
+        ctx.fail(rule, "store() succeeds only after recording the line number", (scfg.blocks[last].elems[-1] if scfg.blocks[last].elems else st).where,
+                 "store() can report success without `entry.line_number = line_number`: the entry keeps the number of an earlier line, so the "
+                 "next indented line is no longer recognised as its continuation (and the extended getter reports a stale line)",
+                 key="store-line-skipped", path=scfg.describe_path(wp))
+
+
 def run(prog, ctx):
     p8_comment_lines(prog, ctx)
     ma = ModAnalysis(prog, indirect_targets=indirect_table(prog))
@@ -96,7 +119,26 @@ def run(prog, ctx):
     if len(gs) == 1 and objnorm(render(gs[0].call_args()[0])) == objnorm(obj) and render(gs[0].call_args()[1]) == idx:
         ctx.ok("P1", "extended value: values", gs[0].where, "split from the value of the entry found by find_key (index %s)" % idx)
     else:
-        ctx.fail("P1", "extended value: values", g.where, "value source %s" % [render(c) for c in gs], key="map:values")
+        # read directly: some expression over <object>.file_entry[<index found>].value, and no other entry's value
+        vals = [x for x in g.walk() if x.k == "MemberExpr" and x.j.get("member") == "value" and x.j.get("rec") == "file_entry"]
+        own = [x for x in vals if objnorm(render(x)) == "%s.file_entry[%s].value" % (objnorm(obj), idx)]
+        if not gs and own and len(own) == len(vals):
+            ctx.ok("P1", "extended value: values", own[0].where, "split from %s (the entry found by find_key)" % render(own[0]))
+        else:
+            ctx.fail("P1", "extended value: values", g.where, "value source %s" % ([render(c) for c in gs] or sorted(set(render(x) for x in vals))), key="map:values")
+    # the entry the extended getter reports on is the FIRST one with that section and key - the one every other getter reads (= C11.A4)
+    try:
+        from sa.report import Ctx as _Ctx
+        from rules import C11 as _C11
+        sub4 = _Ctx(ctx.prop, ctx.tier, prog)
+        _C11.a4(prog, sub4)
+        _C11.a4_no_entry_passed_over(prog, sub4)
+        for ob in sub4.obs:
+            ob.rule = "P1"
+            ob.instance = "extended value: " + ob.instance
+            ctx.obs.append(ob)
+    except Inconclusive as e:
+        ctx.inconclusive("P1", "extended value: the entry found is the first match", "", str(e))
     # the "one quoted item" test looks at the TRIMMED value
     from sa.dataflow import ReachingDefs as _RD
     grd = _RD(g)
@@ -204,6 +246,18 @@ def run(prog, ctx):
             ctx.fail("P3", "the resolved name is what is returned", rp[0].where,
                      "realpath() is called but its result buffer `%s` is not what is copied: relative names are stored as given (econf_getPath / "
                      "the extended value's file are not absolute)" % bufarg, key="realpath-result-unused")
+    # an absolute name is reported as it was given (= C01.L16)
+    try:
+        from sa.report import Ctx as _Ctx
+        from rules import C01 as _C01
+        sub = _Ctx(ctx.prop, ctx.tier, prog)
+        _C01.l15_l17(prog, sub)
+        for ob in sub.obs:
+            if ob.rule == "L16":
+                ob.rule = "P3"
+                ctx.obs.append(ob)
+    except Inconclusive as e:
+        ctx.inconclusive("P3", "an absolute name is reported as given", "", str(e))
     # (that the gate parses get_absolute_path(file_name) and read_file stores it as path is C06.G2 / C12.F7)
     # ---- P4 ------------------------------------------------------------------------------------------------------------
     L = parser.landmarks(prog)
@@ -241,6 +295,8 @@ def run(prog, ctx):
                      "%s" % ("a continued entry keeps the number of its first line, so the next line is not recognised as its continuation and "
                              "the extended getter does not report the line on which the entry ends" if k == "continuation" else "new entries get no line number"),
                      key="store-line:%s" % k.replace(" ", "-"))
+    success_records_line(prog, ctx, "P4")
+    parser.line_end_rule(prog, ctx, "P9", L)
     # ---- P5 ------------------------------------------------------------------------------------------------------------------
     cfg = rf.cfg
     for c in L.store_calls:
